@@ -168,9 +168,43 @@ PROPS["C13"] = {
     "assumptions": COMMON_ASSUME,
 }
 
+ADAPTER_TRUSTED = [
+    "lean/MediaSan/Adapters.lean: RawOps (Read::read with short reads + Skip), BufReader(cap) of std and futures-util (fill when empty, bypass when empty and request >= capacity, read_exact / read_to_end loops) with the Skip impl of common/src/skip.rs and async_skip.rs, SeekSkipAdapter over std::io::Cursor seek semantics",
+    "forwarding impls (&mut, Box, Pin) and AsyncInputAdapter are one-line delegations: covered by the correspondence, not modelled separately",
+    "std::fs::File is exercised by the harness and modelled as the seek-based ideal cursor",
+]
+PROPS["C15"] = {
+    "extract": [],
+    "rule": "cases = ALL histories up to length 4 (5 in thorough) over {read 1/2/3, skip 0/1/2/3, stream_position, stream_len} on an 8-byte stream (cut at the first operation leaving the stream) x capacities 1..9 x the buffered adapters (std BufReader over Cursor / over SeekSkipAdapter, &mut, Box, BufReader over Box over BufReader, futures BufReader, Pin<Box>, futures BufReader over futures BufReader) and the unbuffered ones (Cursor, SeekSkipAdapter, futures Cursor, SeekSkipAdapter over futures Cursor); long random histories (up to 40 ops, reads up to 2 x capacity, skips 0 / < buffered / = / > buffered) on streams of 1..300 bytes over all 13 adapters incl. a real File, capacities 1..64, 32, 8 and 8192; sparse streams of 2^40..2^64-1 bytes with skip amounts i64::MAX-1, i64::MAX, i64::MAX+1, 2^62, 2^63+6. non-trivial = histories with at least two operations (tags n2..n9); distinct = distinct (adapter, capacity, stream, history)",
+    "trivial_if_any": ["n0", "n1"],
+    "shards": {"quick": 8, "thorough": 16},
+    "exhaustive": {"quick": True, "thorough": True},
+    "explanation": "exhaustive = all histories of the stated length over the 9-operation alphabet for every capacity 1..9",
+    "trusted_base": ADAPTER_TRUSTED,
+    "assumptions": COMMON_ASSUME + ["streams shorter than 2^62 bytes in the theorem (the error *kind* of a u64-overflowing skip through a non-empty buffer differs above that); the correspondence also covers streams up to 2^64-1"],
+}
+PROPS["C11"] = {
+    "extract": [],
+    "rule": "cases = each input (C13's mp4 and webp corpora, 250 (3000) random remux files of which a tenth truncated and a tenth byte-flipped, 125 (1500) random VP8X chunk sequences) is run through every variant: sanitize / sanitize_with_config / sanitize_async(_with_config); Cursor<Vec>, Cursor<&[u8]>, futures Cursor, SeekSkipAdapter (sync and async), File; std and futures BufReader with capacities {1,2,3,7,8,31,32,33,64,8192, two random in 1..64}; depth-3 stacks (Box<BufReader<SeekSkipAdapter<Cursor>>>, BufReader<Box<BufReader<Cursor>>>, &mut BufReader, Pin<Box<futures BufReader>>, futures BufReader over futures BufReader); readers returning at most k bytes per read for k patterns {1}, {2}, {3,1}, {7,1,2}, random, alone and under a BufReader (about 50 variants per mp4 input, 25 per webp input). All results must be identical, and equal to the Lean model's answer on the ideal cursor AND on BufReader(32) over single-byte reads. non-trivial = every case; distinct = distinct inputs",
+    "trivial_tags": [],
+    "shards": {"quick": 4, "thorough": 16},
+    "trusted_base": ADAPTER_TRUSTED,
+    "assumptions": COMMON_ASSUME + ["the async functions are driven to completion with now_or_never: in-memory futures never return Pending (suspension schedules are C12)"],
+}
+
 NOT_APPLICABLE = {}
 
 MANIFEST_TEXT = {
+    "C15": {
+        "text": "Lean theorem C15_refines: for every stream (< 2^62 bytes), seek-based or strict underlying skip, every capacity >= 1, every read chunking and EVERY history of read_exact / skip / stream_position / stream_len / fill_buf / read_to_end calls of any length, BufReader(cap) with the Skip impl of common/src/skip.rs returns exactly the bytes, positions, lengths and errors of the ideal cursor - proved as a per-operation simulation (abstraction: ideal position = inner position - buffered; buffer = stream bytes at the ideal position), including the read loop under arbitrary short reads, and lifted to histories by induction over I/O programs. SeekSkipAdapter: skip equals the ideal seek-based skip for every amount (also > i64::MAX) and stream_len restores the position. Correspondence: exhaustive short histories x capacities 1..9 x all 13 provided adapters (sync, async, forwarding, File), long random histories, sparse streams up to 2^64-1.",
+        "note": "Trusted: Lean kernel and standard axioms; the adapter model (validated differentially against std/futures BufReader, Cursor, File); nested stacks and forwarding wrappers are covered by the correspondence only.",
+        "technique": "Lean 4 refinement proof (simulation per operation, induction over the read loop and over histories) + exhaustive short-history differential check over all provided adapters",
+    },
+    "C11": {
+        "text": "Lean theorems: parametricity - cursor implementations related by a simulation give the same outcome for both sanitizers (induction over I/O programs); with C15's simulation, BufReader of any capacity over any read chunking over a seek-based or strict input gives the ideal-cursor outcome (C11_adapters_mp4 / _webp), hence capacity and chunking are irrelevant. Correspondence: about 50 (mp4) / 25 (webp) ways of feeding the same bytes - all four entry points, sync and async, every provided adapter and depth-3 stacks, File, short-read patterns - must return identical results, equal to the model's answer on two different cursor instances.",
+        "note": "Trusted: as C15; that the sync entry point is the async function over AsyncInputAdapter (sync.rs) is a definitional fact of the Rust source, exercised by the correspondence.",
+        "technique": "Lean 4 parametricity proof over I/O programs + C15 simulation; differential check across entry points, adapter stacks and chunkings",
+    },
     "C13": {
         "text": "Lean theorems: for EVERY program written in the I/O-program language (in particular both sanitizers), every cursor, fault position and error kind, a fault injected at operation k yields the fault-free outcome (run ends before k), Io(e), or - for UnexpectedEof only - the parse error of the map_eof site: never success and never a panic (run_faulty, instantiated as C13_fault_mp4 / C13_fault_webp); every read/skip of the MP4 sanitizer is a map_eof site (EofMapped, proved structurally over the whole program); on the ideal in-memory cursor the MP4 sanitizer never returns Io except InvalidInput/InvalidData for a seek target beyond u64 (C13_memory_mp4). Correspondence: exhaustive fault enumeration over a corpus x six kinds, sync and async; the MP4 model on BufReader(32)-over-faulty-input must reproduce the real outcome at every fault index.",
         "note": "Trusted: Lean kernel and standard axioms; that the sanitizers are faithfully written as I/O programs (validated differentially incl. index-aligned faulted runs for mp4). C13_memory for webpsan (EofMapped of the webp program) is future work; its fault-free runs are compared with the model.",
